@@ -704,20 +704,42 @@ BORROWED_ARG_OK = {
 }
 
 
+FIELD_RELEASE = {
+    'struct uref *': ('uref_free',), 'struct ubuf *': ('ubuf_free',), 'struct udict *': ('udict_free',),
+    'struct upump *': ('upump_free',), 'struct upipe *': ('upipe_release',), 'struct uclock *': ('uclock_release',),
+    'struct ubuf_mgr *': ('ubuf_mgr_release',), 'struct uref_mgr *': ('uref_mgr_release',), 'struct upump_mgr *': ('upump_mgr_release',),
+    'struct upipe_mgr *': ('upipe_mgr_release',), 'struct umem_mgr *': ('umem_mgr_release',), 'struct udict_mgr *': ('udict_mgr_release',),
+    'struct uprobe *': ('uprobe_release',), 'char *': ('free',), 'uint8_t *': ('free',),
+}
+
+
 def check_field_free(rep, prog):
-    """a uref / ubuf field the unit itself treats as owned is freed by the function that frees the pipe"""
-    rep.rule('R-field-free', 'every struct uref * / struct ubuf * field of a pipe structure that the unit fills with something other than NULL and that the unit '
-             'itself treats as owned somewhere (it frees it, or sends it downstream, from that field): the function freeing that kind of pipe reaches a '
-             'uref_free / ubuf_free of that field (or sends it downstream a last time), directly or through functions of the unit. A field the unit never frees anywhere is a borrowed pointer and is '
-             'not an instance (contradiction rule: freed in one place, forgotten in the destructor)')
+    """a field the unit itself treats as owned is released by the tear-down of the pipe"""
+    rep.rule('R-field-free', 'every field of a pipe structure holding a uref, ubuf, udict, pump, pipe, clock, manager, probe or malloc\'ed string that the unit '
+             'fills with something other than NULL and that the unit itself treats as owned somewhere (it passes that very field to the type\'s free / release '
+             'function, or for a uref / ubuf sends it downstream; or it fills the field straight from X_use(..) or an allocation): the tear-down of that kind of pipe - the function throwing "dead", together with the function '
+             'that drops the pipe\'s inner reference count when the last outside reference goes (X_no_ref / X_no_input of the bin pipes) - reaches a free / '
+             'release of that field (or a last output), directly or through functions of the unit. A field the unit never releases anywhere is a borrowed pointer '
+             'and is not an instance (contradiction rule: released in one place, forgotten in the destructor)')
     n = 0
-    TYPES = ('struct uref *', 'struct ubuf *')
+    REL = FIELD_RELEASE
+    DATA = ('struct uref *', 'struct ubuf *')
 
     def field_of(fn, a):
         a = strip_all_casts(fn.resolve(a))
-        if isinstance(a, dict) and a.get('k') == 'mem' and a.get('t') in TYPES and a.get('rec'):
-            return (a.get('rec'), a.get('f'))
+        if isinstance(a, dict) and a.get('k') == 'mem' and a.get('t') in REL and a.get('rec'):
+            return (a.get('rec'), a.get('f'), a.get('t'))
         return None
+
+    def disposes(fn, x, key):
+        """the call x gives up the object held in the field key"""
+        if x.get('k') != 'call' or not x.get('fn') or not x.get('args'):
+            return False
+        if x['fn'] in REL[key[2]]:
+            return field_of(fn, x['args'][0]) == key
+        if key[2] in DATA and own.FORWARD_RE.search(x['fn']):
+            return any(field_of(fn, a) == key for a in x['args'])
+        return False
 
     for uname, u in sorted(prog.units.items()):
         stored, owned = {}, {}
@@ -727,15 +749,19 @@ def check_field_free(rep, prog):
             for _, _, x in fn.nodes():
                 if is_assign(x) and x.get('op') == '=':
                     l = strip_all_casts(x['lhs'])
-                    if isinstance(l, dict) and l.get('k') == 'mem' and l.get('t') in TYPES and l.get('rec'):
-                        r = strip_all_casts(x['rhs'])
-                        if const_of(r) == 0:
+                    if isinstance(l, dict) and l.get('k') == 'mem' and l.get('t') in REL and l.get('rec'):
+                        if const_of(strip_all_casts(x['rhs'])) == 0:
                             continue
-                        stored.setdefault((l['rec'], l['f']), []).append((fn, x))
-                elif x.get('k') == 'call' and x.get('fn') and (x['fn'] in ('uref_free', 'ubuf_free') or own.FORWARD_RE.search(x['fn'])):
-                    for a in x.get('args', []):
+                        key = (l['rec'], l['f'], l['t'])
+                        stored.setdefault(key, []).append((fn, x))
+                        r = strip_all_casts(fn.resolve(x['rhs']))
+                        if isinstance(r, dict) and r.get('k') == 'call' and r.get('fn') and l['t'] not in ('char *', 'uint8_t *') \
+                                and (re.search(r'_use$', r['fn']) or (own.PRODUCER_RE.search(r['fn']) and r['fn'] not in own.NOT_PRODUCERS)):
+                            owned.setdefault(key, []).append((fn, r))      # a reference taken, or an allocation, put straight into the field
+                elif x.get('k') == 'call' and x.get('fn') and x.get('args'):
+                    for a in x['args']:
                         k = field_of(fn, a)
-                        if k:
+                        if k and disposes(fn, x, k):
                             owned.setdefault(k, []).append((fn, x))
         if not stored:
             continue
@@ -747,9 +773,8 @@ def check_field_free(rep, prog):
                 return None
             seen.add(fn.name)
             for _, _, x in fn.nodes():
-                if x.get('k') == 'call' and x.get('fn') and (x['fn'] in ('uref_free', 'ubuf_free') or own.FORWARD_RE.search(x['fn'])) \
-                        and any(field_of(fn, a) == key for a in x.get('args', [])):
-                    return fn.name      # freed, or flushed downstream
+                if disposes(fn, x, key):
+                    return fn.name      # freed / released, or flushed downstream
             for _, _, x in fn.nodes():
                 if x.get('k') == 'call' and x.get('fn') in u.funcs and u.funcs[x['fn']].blocks:
                     r = freed(u.funcs[x['fn']], key, seen)
@@ -764,19 +789,30 @@ def check_field_free(rep, prog):
             mine = [f for f in frees if f.name == rec + '_free' or any(x.get('k') == 'call' and x.get('fn') == rec + '_from_upipe' for _, _, x in f.nodes())]
             if not mine:
                 continue        # not the private structure of a pipe of this unit
+            # first stage of the tear-down of a bin pipe: drops the inner reference count when the last outside reference goes
+            stage1 = []
+            dead = u.funcs.get(rec + '_dead_urefcount')      # generated by UPIPE_HELPER_UREFCOUNT: calls the function the pipe registered
+            if dead is not None and dead.blocks:
+                stage1 = [u.funcs[x['fn']] for _, _, x in dead.nodes()
+                          if x.get('k') == 'call' and x.get('fn') in u.funcs and u.funcs[x['fn']].blocks and not u.funcs[x['fn']].macro
+                          and u.funcs[x['fn']] not in mine]
+            stage1 += [f for f in u.funcs.values() if f.blocks and not f.macro and f not in mine and f not in stage1
+                       and any(x.get('k') == 'call' and x.get('fn') == rec + '_to_urefcount_real' for _, _, x in f.nodes())
+                       and any(x.get('k') == 'call' and x.get('fn') == 'urefcount_release' for _, _, x in f.nodes())]
             n += 1
-            inst = '%s.%s' % key
-            bad = [f for f in mine if not freed(f, key, set())]
-            if bad and key in FIELD_FREE_OK:
-                rep.add('R-field-free', inst, OOS, bad[0].loc, why='listed: ' + FIELD_FREE_OK[key])
+            inst = '%s.%s' % key[:2]
+            early = next((r for r in (freed(g, key, set()) for g in stage1) if r), None)
+            bad = [] if early else [f for f in mine if not freed(f, key, set())]
+            if bad and key[:2] in FIELD_FREE_OK:
+                rep.add('R-field-free', inst, OOS, bad[0].loc, why='listed: ' + FIELD_FREE_OK[key[:2]])
             elif bad:
                 o = owned[key][0]
                 rep.add('R-field-free', inst, VIOLATED, bad[0].loc,
-                        what='%s (line %s) fills the field %s and %s (line %s) disposes of it with %s, so the pipe owns it; %s, which frees this pipe, never '
-                             'frees it: whatever the field holds when the pipe goes is leaked'
+                        what='%s (line %s) fills the field %s and %s (line %s) calls %s for it, so the pipe owns it; %s, which frees this pipe, never '
+                             'gives it up: whatever the field holds when the pipe goes is leaked'
                              % (sites[0][0].name, sites[0][1].get('l'), inst, o[0].name, o[1].get('l'), o[1].get('fn'), bad[0].name))
             else:
-                rep.add('R-field-free', inst, HOLDS, mine[0].loc, freed_by=freed(mine[0], key, set()))
+                rep.add('R-field-free', inst, HOLDS, mine[0].loc, released_by=early or freed(mine[0], key, set()))
     return n
 
 
@@ -860,8 +896,8 @@ def run(tier='quick', repo=None):
     if nld < (10 if tier == 'thorough' else 8):
         raise facts.AnalysisBroken('R-list-drain found only %d uref lists' % nld)
     nff = check_field_free(rep, prog)
-    if nff < (150 if tier == 'thorough' else 100):
-        raise facts.AnalysisBroken('R-field-free found only %d owned uref/ubuf fields' % nff)
+    if nff < (350 if tier == 'thorough' else 250):
+        raise facts.AnalysisBroken('R-field-free found only %d owned fields' % nff)
     nba = check_borrowed_arg(rep, prog)
     if nba < (100 if tier == 'thorough' else 60):
         raise facts.AnalysisBroken('R-borrowed-arg found only %d uses of borrowed control arguments' % nba)
